@@ -407,14 +407,11 @@ theorem setCReg_code_tie (m : Enc.Encoder) (adj : UInt8) (incr : Bool) (c : Colo
       simp [he, ha, h0, enc1Of, enc2Of, enc3Of, enc4Of, Enc.cregForm, h1, Go.arrGet, goErr]
 
 /-
-NOT TIED: `(*Encoder).SetNReg`.  The Go method encodes into `buffer(e.scratch[k:k])` — slices that ALIAS the array
-field `e.scratch` — and then reads the bytes back through `e.scratch[iBest:iBest+nBest]`.  The translator does not
-model a store through a slice that aliases an array and reports the method as unsupported ("storing a slice that
-aliases an array", `Ivg/Gen/Code/Index.lean`), so there is no generated definition to tie.  (An earlier translation
-that ignored the aliasing disagreed with the model: with a zero `scratch`, `SetNReg(0, false, 1.0)` appended
-`[0xa8, 0x00]` where Go and the model append `[0xa8, 0x02]`.)  The model's `Encoder.setNReg`/`nregForm` therefore
-rest on the differential test only; the three candidate encoders it calls are tied (`encodeReal_code_tie`,
-`encodeCoordinate_code_tie`, `encodeZeroToOne_code_tie`).
+`(*Encoder).SetNReg` — three encodings into windows of the scratch array that ALIAS the array field, read back through
+`e.scratch[iBest:iBest+nBest]` — is tied in `Encoder7.lean` (`setNReg_code_tie`): the translator calls the tied number
+encoders on the empty window and writes what they return into the array (`Go.writeWindow`); the tie shows that the three
+windows do not disturb each other.  (An early translation that ignored the aliasing disagreed with the model: with a
+zero `scratch`, `SetNReg(0, false, 1.0)` appended `[0xa8, 0x00]` where Go and the model append `[0xa8, 0x02]`.)
 -/
 
 end Ivg.Gen.Tie
